@@ -475,7 +475,17 @@ def c12(run):
                                 "bounded optionals in contexts and exceptions, `A B > &`), expansions computed in TLA+; the real interpreter run on both, structural results compared")
 
 
+def c13(run):
+    run.assumptions += TRUSTED[:1] + ["spec/frozen/lexicon.json and spec/Lexicon.tla are the frozen synonym tables (derived once at the pinned commit; the 171 advertised variants are a subset)",
+                                      "respellings are applied to the printed rule / word by harness/src/c13.rs under the control of seeds drawn by TLC"]
+    res = run_tlc("GEN_C13", "gen/GEN_C13.tla", "gen/GEN_C13_%s.cfg" % run.tier, env=run.known_env(), consumer=[HARNESS, "replay", "C13"], timeout=6000)
+    run.add_tlc("GEN_C13", res, "S->I: (1) every member of every frozen synonym class x 4 case/spacing variants through the rule lexer and the alias lexer against the canonical spelling; "
+                                "(2) rules of the full grammar with two independent respellings of every synonym-bearing token (arrows, |//, */empty set, ellipses, angle brackets, feature names, "
+                                "blanks, trailing comments, alpha letters, variable numbers) and respelled words (stress, length, tie, ; and the input aliases): outcomes must be equal")
+
+
 PROPS = {
+    "C13": (c13, "model_checking"),
     "C12": (c12, "model_checking"),
     "C15": (c15, "model_checking"),
     "C20": (c20, "model_checking"),
